@@ -12,6 +12,7 @@ from ibldsp.voltage import detect_bad_channels, interpolate_bad_channels, car, k
 from ibldsp.fourier import fshift
 from ibldsp.utils import make_channel_index
 from iblutil.numerical import ismember
+import ibldsp._verif as _verif
 
 logger = logging.getLogger(__name__)
 
@@ -255,6 +256,10 @@ def write_wfs_chunk(
         snip = kfilt_func(snip)
     iw = wf_flat['waveform_index'].values
     wfs_mmap[iw, :, :] = extract_wfs_array(snip, df, channel_neighbors, add_nan_trace=True)[0]
+    if _verif.ON:
+        _verif.emit("ChunkJob", i_chunk=int(i_chunk), s0=int(s0), s1=int(s1), rows=[int(x) for x in iw],
+                    samples=[int(x) for x in wf_flat["sample"].values], local=[int(x) for x in sample.values],
+                    snip_first=int(s0 - offset), snip_len=int(snip.shape[1]))
 
 
 def extract_wfs_cbin(
